@@ -17,4 +17,22 @@ TEXT = {
         "note": NOTE,
         "technique": "runtime monitor: canonicity map keyed by oracle truth table + structural invariant walker + unique-table set model under adversarial hashes (feature-guarded capacity hook); Miri and AddressSanitizer legs",
     },
+    "C03": {
+        "level": "Exploration by runtime monitoring: every SDD builder call in generated histories is compared with a truth-table oracle through an independent structural walker; all vtrees on 3 and 4 leaves are enumerated, larger vtrees of every family and both compression modes are sampled, tables start tiny so they grow constantly, and earlier results are re-evaluated periodically.",
+        "design_ref": "DESIGN.md section 4, C03",
+        "note": NOTE,
+        "technique": "runtime monitor: truth-table reference model over generated SDD operation histories, all small vtrees enumerated, apply-case coverage recorded",
+    },
+    "C04": {
+        "level": "Exploration by runtime monitoring: a structural invariant walker checks every decision node reachable from every result (partition of primes, vtree scoping of primes and subs, compression, trimming) from oracle truth tables, and a canonicity map keyed by truth table covers results and all sub-nodes in both polarities; unique tables start at 2..64 slots (hook) so growth is constant; Miri leg on a small history.",
+        "design_ref": "DESIGN.md section 4, C04",
+        "note": NOTE,
+        "technique": "runtime monitor: structural invariant walker at every quiescent point + canonicity map keyed by oracle truth table; Miri leg",
+    },
+    "C05": {
+        "level": "Exploration by runtime monitoring: each compilation (CNF, expression, dtree plan, compile-under-assignment) on BDD and SDD builders under random orders / vtrees is compared with the harness's own evaluation of the input on all assignments, plus pointer-equality between the alternative routes inside one builder.",
+        "design_ref": "DESIGN.md section 4, C05",
+        "note": NOTE,
+        "technique": "runtime monitor: differential check of compiled diagrams against brute-force evaluation of the input, and pointer-equality across compilation routes",
+    },
 }
